@@ -527,6 +527,20 @@ def expand(v, masked):
         for c2, m2, d2, e2 in expand(v[2], masked):
             out.append((c2, m2, (v[1],) + d2, e2))
         return out
+    if k == 'where' and not contains_x(v[1]):
+        # conditional expression on a parameter predicate: the same two branches an if / else would give
+        try:
+            p_t, p_f = norm_pred(v[1], True), norm_pred(v[1], False)
+        except Undecided:
+            p_t = None
+        if p_t is not None:
+            out = []
+            for pr, sub in ((p_t, v[2]), (p_f, v[3])):
+                for c2, m2, d2, e2 in expand(sub, masked):
+                    cc = dedupe([pr] + list(c2))
+                    if consistent(cc):
+                        out.append((tuple(cc), m2, d2, e2))
+            return out
     if k in ('x', 'sym', 'num', 'nan'):
         return [((), (), (), v)]
     # generic node: cartesian product over children
